@@ -169,7 +169,7 @@ func calibTime() time.Duration {
 	runtime.LockOSThread()
 	defer runtime.UnlockOSThread()
 	c0 := threadCPU()
-	sink = calib.Loop(20_000_000)
+	sink = calib.Loop(3_000_000)
 	return threadCPU() - c0
 }
 
@@ -217,23 +217,6 @@ var litSuffix = regexp.MustCompile(`(\.func\d+|\.\d+|\.gowrap\d+)+$`)
 // declFunc names the declared function containing a unit: "tokenizer.Tokenizer.toSQLPosition".
 func declFunc(u int) string {
 	return litSuffix.ReplaceAllString(funcName(u), "")
-}
-
-// steep reports whether the series x (at sizes n) shows growth above the allowed factor over two
-// consecutive doublings starting at an index whose value is at least floorCount; it returns the
-// index of the first of the three points.
-func steep(n []int, x []float64, floor float64) (int, bool) {
-	for i := 0; i+2 < len(x); i++ {
-		if x[i] < floor {
-			continue
-		}
-		f1 := math.Pow(float64(n[i+1])/float64(n[i]), 1.5)
-		f2 := math.Pow(float64(n[i+2])/float64(n[i+1]), 1.5)
-		if x[i+1] > f1*x[i] && x[i+2] > f2*x[i+1] {
-			return i, true
-		}
-	}
-	return 0, false
 }
 
 func exponent(n0, n1 int, x0, x1 float64) float64 {
@@ -342,13 +325,55 @@ func enumerate(e *common.Enum) {
 	}
 }
 
+// A rule says when a series of costs grows too fast: `steps` consecutive steps, starting at a value
+// of at least floorCount, each of which multiplies the cost by more than allowed(n0, n1).
+type rule struct {
+	name    string
+	steps   int
+	allowed func(n0, n1 int) float64
+}
+
+var (
+	// main ladder (doublings): more than 2^1.5 per doubling, twice in a row
+	doublings = rule{"two consecutive doublings", 2, func(n0, n1 int) float64 { return math.Pow(float64(n1)/float64(n0), 1.5) }}
+	// small-size ladder (n = 8, 10, 12 ... 64): more than x1.5 per step of +2, three times in a row.
+	// Polynomial growth of degree <= 2 stays below that from n = 8 on; the rule exists to catch
+	// explosive (exponential) growth while it is still cheap to observe.
+	explosive = rule{"three consecutive steps of +2 elements", 3, func(int, int) float64 { return 1.5 }}
+)
+
+func (ru rule) steep(n []int, x []float64, floor float64) bool {
+	k := ru.steps
+	if len(x) < k+1 {
+		return false
+	}
+	n, x = n[len(n)-k-1:], x[len(x)-k-1:] // older windows were judged when they were the newest
+	if x[0] < floor {
+		return false
+	}
+	for i := 0; i < k; i++ {
+		if !(x[i+1] > ru.allowed(n[i], n[i+1])*x[i]) {
+			return false
+		}
+	}
+	return true
+}
+
+func smallLadder() []int {
+	var out []int
+	for n := 8; n <= 64; n += 2 {
+		out = append(out, n)
+	}
+	return out
+}
+
 func runCase(c *common.Ctx, e *common.Enum, f *family, en *entry) {
 	if err := selfTest(); err != nil {
 		c.Fail("harness:coverage-selftest", "the cost measure is not available: "+err.Error())
 		return
 	}
 	ladder := f.ladder(e.Thorough())
-	c.Input(fmt.Sprintf("family %s (%s), entry point %s (%s), n = %v; smallest input: %s",
+	c.Input(fmt.Sprintf("family %s (%s), entry point %s (%s), n = 8, 10 .. 64, then %v; input at n = 8: %s",
 		f.name, f.doc, en.name, en.doc, ladder, common.Trim(f.gen(8), 200)))
 	c.Sample(map[string]any{"family": f.name, "entry": en.name, "input_at_n=8": common.Trim(f.gen(8), 120)})
 
@@ -361,98 +386,120 @@ func runCase(c *common.Ctx, e *common.Enum, f *family, en *entry) {
 		safeCall(call)
 	}
 
-	var pts, prep []point
 	r := row{Family: f.name, Entry: en.name, Verdict: "near-linear"}
 	var calibs []time.Duration
 	noisy := false
 	cut := ""
-	stopped := ""
-	for _, n := range ladder {
-		touchCur()
-		sql := f.gen(n)
-		if len(sql) > maxInputSize {
-			break
-		}
-		var call func() string
-		ok := true
-		if en.needAST {
-			var tr *ast.AST
-			pp, err := measure(func() string {
-				t, err := gosqlx.Parse(sql)
-				tr = t
-				return errClass(err)
-			}, true)
+	violated := false
+	var pts []point // points of the main ladder (for the table)
+
+	type stage struct {
+		sizes []int
+		ru    rule
+		main  bool
+	}
+	stages := []stage{{smallLadder(), explosive, false}, {ladder, doublings, true}}
+	if f.sizes != nil {
+		stages = stages[1:] // fixed-size families (token limit) have no small sizes
+	}
+stages:
+	for _, st := range stages {
+		var cur, prep []point
+		rejected := 0
+		for _, n := range st.sizes {
+			touchCur()
+			sql := f.gen(n)
+			if len(sql) > maxInputSize {
+				break
+			}
+			var call func() string
+			ok := true
+			if en.needAST {
+				var tr *ast.AST
+				pp, err := measure(func() string {
+					t, err := gosqlx.Parse(sql)
+					tr = t
+					return errClass(err)
+				}, true)
+				if err != nil {
+					c.Fail("harness:counter-snapshot", err.Error())
+					return
+				}
+				pp.N, pp.Bytes = n, len(sql)
+				prep = append(prep, pp)
+				ok = pp.Result == "ok" && tr != nil
+				call = func() string { return en.tree(tr) }
+				if sig, _, _ := judge(en, st.ru, prep, nil); sig != "" {
+					// reported by the Parse case of this family; larger trees would cost ever more to build
+					cut = fmt.Sprintf("ladder cut at n=%d: building the tree for this family is itself super-linear (reported by the Parse case)", n)
+					break stages
+				}
+			} else {
+				call, ok = en.prepare(sql)
+			}
+			if !ok {
+				// a tree-consuming entry point and the parser rejects this input: nothing to measure
+				rejected++
+				if st.main {
+					pts = append(pts, point{N: n, Bytes: len(sql), Result: "not-parsed"})
+				}
+				if rejected >= 2 {
+					break // rejected at two sizes: larger ones are rejected too (limits are monotone)
+				}
+				continue
+			}
+			p, err := measure(call, true)
 			if err != nil {
 				c.Fail("harness:counter-snapshot", err.Error())
 				return
 			}
-			pp.N, pp.Bytes = n, len(sql)
-			prep = append(prep, pp)
-			ok = pp.Result == "ok" && tr != nil
-			call = func() string { return en.tree(tr) }
-			if sig, _, _ := judge(en, prep, nil); sig != "" {
-				// reported by the Parse case of this family; larger trees would cost 4x per step to build
-				cut = fmt.Sprintf("ladder cut at n=%d: building the tree for this family is itself super-linear (reported by the Parse case)", n)
-				ok = false
+			p.N, p.Bytes = n, len(sql)
+			c.Count("measurements", 1)
+			// CPU back-stop data: min of 3 where a call is long enough to be timed
+			if st.main && p.cpu >= cpuFloor/4 {
+				c0 := calibTime()
+				m := p.cpu
+				for k := 0; k < 2; k++ {
+					if d := timeOnly(call); d < m {
+						m = d
+					}
+				}
+				c1 := calibTime()
+				calibs = append(calibs, c0, c1)
+				p.cpuMin = m
+				p.CPUms = float64(m.Microseconds()) / 1000
 			}
-		} else {
-			call, ok = en.prepare(sql)
-		}
-		if cut != "" {
-			break
-		}
-		if !ok {
-			// a tree-consuming entry point and the parser rejects this input: nothing to measure
-			pts = append(pts, point{N: n, Bytes: len(sql), Result: "not-parsed"})
-			if len(pts) >= 2 && pts[len(pts)-2].Result == "not-parsed" {
-				break // rejected at two sizes in a row: larger ones are rejected too (limits are monotone)
+			cur = append(cur, p)
+			if st.main {
+				pts = append(pts, p)
 			}
-			continue
-		}
-		p, err := measure(call, true)
-		if err != nil {
-			c.Fail("harness:counter-snapshot", err.Error())
-			return
-		}
-		p.N, p.Bytes = n, len(sql)
-		c.Count("measurements", 1)
-		// CPU back-stop data: min of 3 where a call is long enough to be timed
-		if p.cpu >= cpuFloor/4 {
-			c0 := calibTime()
-			m := p.cpu
-			for k := 0; k < 2; k++ {
-				if d := timeOnly(call); d < m {
-					m = d
+			if os.Getenv("C20_DEBUG") != "" {
+				fmt.Fprintf(os.Stderr, "%s n=%d bytes=%d res=%s lib=%d std=%d alloc=%d cpu=%v wall=%v\n", c.Key, n, len(sql), p.Result, p.Lib, p.Std, p.Alloc, p.cpu, p.wall)
+			}
+			if sig, where, msg := judge(en, st.ru, cur, call); sig != "" {
+				r.Verdict, r.Where = "super-linear", where
+				if !st.main {
+					r.Verdict = "explosive growth at small sizes"
+					pts = cur
+				}
+				c.Fail(sig, fmt.Sprintf("family %s, entry point %s: %s", f.name, en.name, msg))
+				violated = true
+				break stages
+			}
+			if st.main {
+				if cpuSig, msg := judgeCPU(en, cur, calibs, &noisy, call); cpuSig != "" {
+					r.Verdict, r.Where = "super-linear (cpu time)", strings.TrimPrefix(cpuSig, "superlinear:"+en.name+":")
+					c.Fail(cpuSig, fmt.Sprintf("family %s, entry point %s: %s", f.name, en.name, msg))
+					violated = true
+					break stages
 				}
 			}
-			c1 := calibTime()
-			calibs = append(calibs, c0, c1)
-			p.cpuMin = m
-			p.CPUms = float64(m.Microseconds()) / 1000
-		}
-		pts = append(pts, p)
-		if os.Getenv("C20_DEBUG") != "" {
-			fmt.Fprintf(os.Stderr, "%s n=%d bytes=%d res=%s lib=%d std=%d alloc=%d cpu=%v wall=%v\n", c.Key, n, len(sql), p.Result, p.Lib, p.Std, p.Alloc, p.cpu, p.wall)
-		}
-		if sig, where, msg := judge(en, pts, call); sig != "" {
-			r.Verdict, r.Where = "super-linear", where
-			c.Fail(sig, fmt.Sprintf("family %s, entry point %s: %s", f.name, en.name, msg))
-			stopped = "violation"
-			break
-		}
-		if cpuSig, msg := judgeCPU(en, pts, calibs, &noisy, call); cpuSig != "" {
-			r.Verdict, r.Where = "super-linear (cpu time)", strings.TrimPrefix(cpuSig, "superlinear:"+en.name+":")
-			c.Fail(cpuSig, fmt.Sprintf("family %s, entry point %s: %s", f.name, en.name, msg))
-			stopped = "violation"
-			break
-		}
-		if p.wall > 20*time.Second {
-			e.Cap(fmt.Sprintf("ladder of %s stopped at n=%d: one call took more than 20 s", c.Key, n))
-			stopped = "cap"
-			break
+			if p.wall > 20*time.Second {
+				e.Cap(fmt.Sprintf("ladder of %s stopped at n=%d: one call took more than 20 s", c.Key, n))
+				break stages
+			}
 		}
 	}
-	_ = stopped
 	if cut != "" {
 		c.Count("ladders_cut_parse_superlinear", 1)
 	}
@@ -487,23 +534,21 @@ func runCase(c *common.Ctx, e *common.Enum, f *family, en *entry) {
 	}
 	class := "near-linear"
 	switch {
-	case r.Verdict != "near-linear":
+	case violated:
 		class = "super-linear"
-	case measured == 0:
-		class = "not-parsed"
-		r.Verdict = "not measured: the parser rejects this family"
 	case cut != "":
 		class = "near-linear,ladder-cut"
 		r.Verdict = "near-linear up to n_max; " + cut
+	case measured == 0:
+		class = "not-parsed"
+		r.Verdict = "not measured: the parser rejects this family"
 	case r.Result != "ok":
 		class = "near-linear," + r.Result + "-at-n-max"
 	}
 	if noisy {
 		c.Count("cpu_backstop_skipped_noisy_machine", 1)
 	}
-	if measured >= 3 && r.Blocks >= floorCount && pts[len(pts)-1].Result == "ok" {
-		c.NonTrivial()
-	} else if measured >= 3 && r.Verdict != "near-linear" {
+	if violated || (measured >= 3 && r.Blocks >= floorCount && r.Result == "ok") {
 		c.NonTrivial()
 	}
 	c.Outcome(en.name + ":" + class)
@@ -513,27 +558,37 @@ func runCase(c *common.Ctx, e *common.Enum, f *family, en *entry) {
 	}
 }
 
-// judge applies the two-doublings rule to the totals, to every basic block and to the allocated
-// bytes of the measured points; it returns a signature naming the function responsible.
-func judge(en *entry, pts []point, call func() string) (sig, where, msg string) {
+// judge applies a growth rule to the totals, to every basic block and to the allocated bytes of
+// the measured points (the newest window); it returns a signature naming the function responsible.
+// call == nil: only say whether the rule is violated (no re-runs for localisation).
+func judge(en *entry, ru rule, pts []point, call func() string) (sig, where, msg string) {
 	var ps []point
 	for _, p := range pts {
 		if p.Result != "not-parsed" {
 			ps = append(ps, p)
 		}
 	}
-	if len(ps) < 3 {
+	w := ru.steps + 1
+	if len(ps) < w {
 		return
 	}
-	ps = ps[len(ps)-3:] // older windows were judged when they were the newest
-	ns := []int{ps[0].N, ps[1].N, ps[2].N}
-	ser := func(f func(p *point) float64) []float64 {
-		return []float64{f(&ps[0]), f(&ps[1]), f(&ps[2])}
+	ps = ps[len(ps)-w:]
+	ns := make([]int, w)
+	for i := range ps {
+		ns[i] = ps[i].N
 	}
+	ser := func(f func(p *point) float64) []float64 {
+		out := make([]float64, w)
+		for i := range ps {
+			out[i] = f(&ps[i])
+		}
+		return out
+	}
+	blk := func(u int) []float64 { return ser(func(p *point) float64 { return float64(p.vec[u]) }) }
 	tot := ser(func(p *point) float64 { return float64(p.total()) })
 	all := ser(func(p *point) float64 { return float64(p.Alloc) })
-	_, totBad := steep(ns, tot, floorCount)
-	_, allBad := steep(ns, all, floorCount)
+	totBad := ru.steep(ns, tot, floorCount)
+	allBad := ru.steep(ns, all, floorCount)
 
 	// per-block rule; also finds the hottest super-linear block
 	type hot struct {
@@ -541,18 +596,20 @@ func judge(en *entry, pts []point, call func() string) (sig, where, msg string) 
 		cnt uint32
 	}
 	var bad []hot
-	for u := range ps[2].vec {
-		x2 := ps[2].vec[u]
-		if x2 < floorCount {
+	lastVec := ps[w-1].vec
+	for u := range lastVec {
+		if lastVec[u] < floorCount {
 			continue
 		}
-		x := []float64{float64(ps[0].vec[u]), float64(ps[1].vec[u]), float64(x2)}
-		if _, b := steep(ns, x, floorCount); b {
-			bad = append(bad, hot{u, x2})
+		if ru.steep(ns, blk(u), floorCount) {
+			bad = append(bad, hot{u, lastVec[u]})
 		}
 	}
 	if !totBad && !allBad && len(bad) == 0 {
 		return
+	}
+	if call == nil {
+		return "superlinear", "", ""
 	}
 	// prefer blocks of the library over blocks of the standard library, then the hottest
 	sort.Slice(bad, func(a, b int) bool {
@@ -566,15 +623,21 @@ func judge(en *entry, pts []point, call func() string) (sig, where, msg string) 
 		return bad[a].u < bad[b].u
 	})
 	describe := func(name string, x []float64) string {
-		return fmt.Sprintf("%s %.0f -> %.0f -> %.0f at n = %d, %d, %d (factors %.2f, %.2f; allowed %.2f)",
-			name, x[0], x[1], x[2], ns[0], ns[1], ns[2], x[1]/x[0], x[2]/x[1], factor)
+		var xs, nn, fs []string
+		for i := range x {
+			xs = append(xs, fmt.Sprintf("%.0f", x[i]))
+			nn = append(nn, fmt.Sprint(ns[i]))
+			if i > 0 {
+				fs = append(fs, fmt.Sprintf("x%.2f (allowed x%.2f)", x[i]/x[i-1], ru.allowed(ns[i-1], ns[i])))
+			}
+		}
+		return fmt.Sprintf("%s %s at n = %s: %s over %s", name, strings.Join(xs, " -> "), strings.Join(nn, ", "), strings.Join(fs, ", "), ru.name)
 	}
 	if len(bad) > 0 {
 		u := bad[0].u
 		fn := declFunc(u)
-		x := []float64{float64(ps[0].vec[u]), float64(ps[1].vec[u]), float64(ps[2].vec[u])}
-		msg = describe("execution count of basic block "+unitPos(u)+" in "+fn, x)
-		if !meta.funcs[meta.units[u].fn].lib && call != nil {
+		msg = describe("execution count of basic block "+unitPos(u)+" in "+fn, blk(u))
+		if !meta.funcs[meta.units[u].fn].lib {
 			// the steep block is in the standard library: name the library function that calls into it
 			if caller := sampleCaller(call); caller != "" {
 				msg += "; reached from " + caller
@@ -593,13 +656,10 @@ func judge(en *entry, pts []point, call func() string) (sig, where, msg string) 
 		if len(others) > 0 {
 			msg += "; further super-linear blocks in " + strings.Join(others, ", ")
 		}
-		msg += "; " + describe("total", tot)
+		msg += "; " + describe("total block count", tot) + "; " + describe("allocated bytes", all)
 		return "superlinear:" + en.name + ":" + fn, fn, msg
 	}
 	if allBad {
-		if call == nil {
-			return "superlinear:" + en.name + ":alloc", "alloc", "allocated bytes"
-		}
 		fn := allocSite(call)
 		msg = describe("allocated bytes", all)
 		if fn == "" {
@@ -609,12 +669,11 @@ func judge(en *entry, pts []point, call func() string) (sig, where, msg string) 
 		}
 		return "superlinear:" + en.name + ":" + fn, fn, msg
 	}
-	// only the total is steep: name the steepest block regardless of the floor
+	// only the total is steep: name the hottest block that is steep regardless of the floor
 	best, bestCnt := -1, uint32(0)
-	for u := range ps[2].vec {
-		x := []float64{float64(ps[0].vec[u]), float64(ps[1].vec[u]), float64(ps[2].vec[u])}
-		if _, b := steep(ns, x, 1); b && ps[2].vec[u] > bestCnt && meta.funcs[meta.units[u].fn].lib {
-			best, bestCnt = u, ps[2].vec[u]
+	for u := range lastVec {
+		if lastVec[u] > bestCnt && meta.funcs[meta.units[u].fn].lib && ru.steep(ns, blk(u), 1) {
+			best, bestCnt = u, lastVec[u]
 		}
 	}
 	fn := "total"
